@@ -170,6 +170,39 @@ func runC24AtomicCallee(c *Ctx) {
 		if stores == 0 {
 			pinned = false
 		}
+		// a record that is not a literal of UpdateExportOptions itself (built by a callee) has had its fields set
+		// elsewhere: only a pinning store that is executed on every path to the UpdatePolicyOptions call counts
+		if pinned {
+			for _, call := range calls(ue) {
+				f2 := staticCallee(call)
+				if f2 == nil || f2 != upo || len(call.Common().Args) < 2 {
+					continue
+				}
+				rec := unwrap(call.Common().Args[1])
+				if _, isLit := rec.(*ssa.Alloc); isLit {
+					continue
+				}
+				dominating := false
+				for _, b := range ue.Blocks {
+					for _, in := range b.Instrs {
+						st, ok := in.(*ssa.Store)
+						if !ok {
+							continue
+						}
+						base, fld, isFA := fieldAddrOf(st.Addr)
+						if !isFA || fld == nil || fld.Name() != f || recvTypeName(base.Type()) != "PolicyOptions" {
+							continue
+						}
+						if b == call.Block() && instrIndex(st) < instrIndex(call) || b != call.Block() && b.Dominates(call.Block()) {
+							dominating = true
+						}
+					}
+				}
+				if !dominating {
+					pinned = false
+				}
+			}
+		}
 		// or validated by the same function before the first mutation
 		validated := false
 		if firstMut != nil {
